@@ -148,4 +148,19 @@ PLANS = {
                        "stub": ["disk (reads served by the simulated disk over the real file)", "sink"]},
         "assumptions": ["the build overlay only turns the package-init pool constructor into a named function (tools/mkoverlay)"],
     },
+    "C06": {
+        "level": "fault_enumeration",
+        "technique": "deterministic simulation with fault injection: one seeded fault per run (read error at byte k on the simulated disk, malformed row, over-long line, failing expression at row p) under a generated query shape over the real file datasources; fault-free twin as reference; real-binary cross-check of exit status",
+        "level_text": ("seeded sampling of (source kind x query shape x fault kind x fault position x preview/execution phase x knobs): a query that has to consume the faulty part must return an error; "
+                       "a LIMIT query may succeed only with exactly the output of the fault-free twin; the fault-free configuration is run separately in 1/8 of the runs. "
+                       "The process-tier part repeats the scenario family against the real octosql binary and checks the exit status and error message"),
+        "level_note": "trusted: the fault-free twin run of the same code as reference for complete output; 'must consume' is decided per shape (everything except LIMIT 2 reads its inputs to the end)",
+        "parts": [{"check": "c06", "quick": 8000, "thorough": 400000, "env": {"VERIF_SHRINK_BUDGET": "120"}},
+                  {"check": "c06cli", "kind": "proc", "script": "c06cli.py", "quick": 480, "thorough": 30000}],
+        "rule": ("each run draws source kind (json/csv/lines), one of 11 query shapes (plain, WHERE, DISTINCT, ORDER BY, GROUP BY, JOIN, IN-subquery, scalar subquery, LIMIT small/large, ORDER BY+LIMIT), "
+                 "fault kind and position, faulted table (main or joined/sub), optimiser flag, worker count and line limit; distinct = distinct (shape tuple, position/knobs) pairs"),
+        "components": {"real": ["planner", "datasources json/csv/lines", "execution nodes incl. Distinct/OrderSensitiveTransform/Limit/joins", "query expressions (subqueries)", "functions.panic"],
+                       "stub": ["disk (simulated over real files)", "sink"]},
+        "assumptions": ["a failing schema preview at plan time counts as the query failing"],
+    },
 }
